@@ -19,7 +19,8 @@ Local Open Scope N_scope.
    request, one array of object references in the response) get the paths walked over their item
    object, recursive or not; the OpenAPI conversion succeeds.
    topics (<Name>Topic services with <M>Message inputs returning Empty) are accepted and listed in
-   the source API. Outside this statement (see the partial list in pylib/propcfg/C16.py): entities. *)
+   the source API. Flattened object fields are inside: the walks see every object through its client
+   properties (cenv: ObjectSchema.ClientProperties), the hypothesis only excludes flatten cycles. Outside this statement (see the partial list in pylib/propcfg/C16.py): entities. *)
 Definition C16_full_statement : Prop :=
   forall (to_snake : str -> str) (P : decl_package), valid_package to_snake P ->
     let r := run_chain current_config (compile_image to_snake P) in
@@ -27,10 +28,10 @@ Definition C16_full_statement : Prop :=
       cr_source r = Ok (declared_api P)
       /\ cr_client r = Ok (declared_clients to_snake P, ks)
       /\ (forall x, In x ks <->
-            present (image_env to_snake P) x /\
+            present (cenv (image_env to_snake P)) x /\
             exists k, In k (flat_map method_roots (declared_clients to_snake P))
-                      /\ present (image_env to_snake P) k
-                      /\ reach (image_env to_snake P) k x)
+                      /\ present (cenv (image_env to_snake P)) k
+                      /\ reach (cenv (image_env to_snake P)) k x)
       /\ cr_swagger r = Ok tt.
 
 Theorem C16_full : C16_full_statement.
@@ -55,10 +56,10 @@ Theorem C16_full_strcase : forall P, valid_package_strcase P ->
     cr_source r = Ok (declared_api P)
     /\ cr_client r = Ok (declared_clients Strcase.to_snake P, ks)
     /\ (forall x, In x ks <->
-          present (image_env Strcase.to_snake P) x /\
+          present (cenv (image_env Strcase.to_snake P)) x /\
           exists k, In k (flat_map method_roots (declared_clients Strcase.to_snake P))
-                    /\ present (image_env Strcase.to_snake P) k
-                    /\ reach (image_env Strcase.to_snake P) k x)
+                    /\ present (cenv (image_env Strcase.to_snake P)) k
+                    /\ reach (cenv (image_env Strcase.to_snake P)) k x)
     /\ cr_swagger r = Ok tt.
 Proof. exact chain_full_strcase. Qed.
 Print Assumptions C16_full_strcase.
@@ -72,10 +73,10 @@ Theorem C16_full_strcase_digits : forall P, valid_package_strcase_d P ->
     cr_source r = Ok (declared_api P)
     /\ cr_client r = Ok (declared_clients Strcase.to_snake P, ks)
     /\ (forall x, In x ks <->
-          present (image_env Strcase.to_snake P) x /\
+          present (cenv (image_env Strcase.to_snake P)) x /\
           exists k, In k (flat_map method_roots (declared_clients Strcase.to_snake P))
-                    /\ present (image_env Strcase.to_snake P) k
-                    /\ reach (image_env Strcase.to_snake P) k x)
+                    /\ present (cenv (image_env Strcase.to_snake P)) k
+                    /\ reach (cenv (image_env Strcase.to_snake P)) k x)
     /\ cr_swagger r = Ok tt.
 Proof. exact chain_full_strcase_d. Qed.
 Print Assumptions C16_full_strcase_digits.
@@ -138,7 +139,7 @@ Theorem C16_chain_with_entities_partial : forall im anns api ms,
   add_structure (im_services im) {| sa_services := []; sa_topics := [] |} = Ok api ->
   wf_anns anns ->
   (forall es, walk_source_schemas anns = Ok es -> exists evs, omapM (entity_events (im_schemas im)) es = Ok evs) ->
-  all_refs_link (im_schemas im) = true -> wf_env (im_schemas im) -> flat_free (im_schemas im) ->
+  all_refs_link (im_schemas im) = true -> wf_env (im_schemas im) -> client_env (im_schemas im) <> None ->
   (forall es, walk_source_schemas anns = Ok es -> forall k, In k (entity_roots es) -> present (im_schemas im) k) ->
   methods_from_source true (with_roots im []) api = Ok ms ->
   Forall wf_client_method ms ->
@@ -149,9 +150,9 @@ Theorem C16_chain_with_entities_partial : forall im anns api ms,
     /\ cr_source r = Ok api
     /\ cr_client r = Ok (ms, ks)
     /\ (forall x, In x ks <->
-          present (im_schemas im) x /\
+          present (cenv (im_schemas im)) x /\
           exists k, In k (root_refs (im_schemas im) (entity_roots es) ++ flat_map method_roots ms)
-                    /\ present (im_schemas im) k /\ reach (im_schemas im) k x)
+                    /\ present (cenv (im_schemas im)) k /\ reach (cenv (im_schemas im)) k x)
     /\ cr_swagger r = Ok tt.
 Proof. exact chain_with_entities. Qed.
 Print Assumptions C16_chain_with_entities_partial.
@@ -284,14 +285,14 @@ Proof. exact list_walk_total. Qed.
 Print Assumptions C16_list_walk_total.
 
 Theorem C16_list_method_total : forall (im : image) sub svc (m : src_method) req resp root,
-  flat_free (im_schemas im) ->
+  client_env (im_schemas im) <> None ->
   all_refs_link (im_schemas im) = true ->
   lookup (im_schemas im) (sub_pkg im sub, sm_req m) = Some (SObject req) ->
   str_eqb (sm_resp m) HTTPBODY_SHORT = false ->
   lookup (im_schemas im) (sub_pkg im sub, sm_resp m) = Some (SObject resp) ->
   is_query_request req = true -> list_root (Some resp) = Ok root ->
   exists paths,
-    walk_fields (S (length (im_schemas im))) (im_schemas im) root [] [] = Ok paths /\
+    walk_fields (S (length (im_schemas im))) (cenv (im_schemas im)) root [] [] = Ok paths /\
     method_from_source true im sub svc m =
     Ok {| cm_service := svc; cm_name := sm_name m; cm_verb := sm_verb m; cm_path := sm_path m;
           cm_req := fill_request (sm_verb m) (sm_path m) req; cm_resp := Some resp; cm_list := Some paths |}.
@@ -405,7 +406,7 @@ Proof.
     { unfold wf_env. apply Forall_forall. intros ks Hks. vm_compute in Hks.
       repeat (destruct Hks as [<-|Hks]; [unfold wf_props; cbn [snd schema_props]; repeat (apply Forall_cons; [vm_compute; reflexivity|]); apply Forall_nil|]).
       contradiction. }
-    apply (flat_free_b_sound). vm_compute. reflexivity.
+    apply (no_flatten_cycle_b_sound). vm_compute. reflexivity.
 Qed.
 
 (* a list method over a self-recursive item object: the chain succeeds and the list request carries
